@@ -49,12 +49,24 @@ Decl(s) == CASE s = "CF" -> <<"types", "class", "Foo">>
              [] s = "GT" -> <<"globals", "table", "GlobT">>
              [] s = "LC" -> <<"types", "class", "LibCls">>
              [] s = "LG" -> <<"globals", "field", "LibGlob">>
+             [] s = "PH" -> <<"types", "class", "Helper">>      \* ---@class (private) Helper   (file-scoped)
+             [] s = "PE" -> <<"types", "enum", "Mode">>         \* ---@enum (private) Mode
+             [] s = "PA" -> <<"types", "alias", "Key">>         \* ---@alias (private) Key string
 
-MainDecls(w) == UNION {{Decl(s) : s \in w[f]} : f \in MainFiles}
-LibOnlyDecls(w) == {Decl(s) : s \in w["l"]} \ MainDecls(w)
+\* ---- file-scoped types (second seeded round) -----------------------------------------------------------
+\* `---@class (private) Helper` declares a type that belongs to ITS FILE: the analyser identifies a type declaration by
+\* (scope, name), not by name, so two files may each declare their own Helper and these are two declared types.  An
+\* ENTITY is therefore <<list, kind, name, scope>>: scope = the declaring file for a file-scoped snippet, "" otherwise
+\* (a global name: re-declaring it in another file re-opens the same entity).  "Each declared type exactly once"
+\* then demands one entry PER ENTITY: two entries named Helper for two private Helper classes of two main files.
+FileScoped == {"PH", "PE", "PA"}
+Ent(s, f) == Decl(s) \o <<IF s \in FileScoped THEN f ELSE "">>
+
+MainDecls(w) == UNION {{Ent(s, f) : s \in w[f]} : f \in MainFiles}
+LibOnlyDecls(w) == {Ent(s, "l") : s \in w["l"]} \ MainDecls(w)
 
 Expected(w, list) ==
-  IF list = "modules" THEN {<<"modules", "module", ModName(f)>> : f \in MainFiles}
+  IF list = "modules" THEN {<<"modules", "module", ModName(f), "">> : f \in MainFiles}
   ELSE {d \in MainDecls(w) : d[1] = list}
 
 Lists == {"types", "globals", "modules"}
@@ -100,14 +112,14 @@ Reproducible == TwoRuns => run1 = run2
 LoadOrders == {"lib-first", "main-first"}
 MainSeq == <<"a", "b", "c">>
 FileSeq(ord) == IF ord = "lib-first" THEN <<"l">> \o MainSeq ELSE MainSeq \o <<"l">>
-AllDecls(w) == MainDecls(w) \cup {Decl(s) : s \in w["l"]}
+AllDecls(w) == MainDecls(w) \cup {Ent(s, "l") : s \in w["l"]}
 \* location list of entity d: the files declaring it, in load order
-Locs(w, d, ord) == SelectSeq(FileSeq(ord), LAMBDA f : \E s \in w[f] : Decl(s) = d)
+Locs(w, d, ord) == SelectSeq(FileSeq(ord), LAMBDA f : \E s \in w[f] : Ent(s, f) = d)
 ListedByAny(w, d, ord) == \E i \in DOMAIN Locs(w, d, ord) : Locs(w, d, ord)[i] \in MainFiles
 ListedByFirst(w, d, ord) == Locs(w, d, ord) # <<>> /\ Locs(w, d, ord)[1] \in MainFiles
 TypeDecls(w) == {d \in AllDecls(w) : d[1] = "types"}
 \* types declared both in the library root and in the main workspace
-SharedTypes(w) == {d \in TypeDecls(w) : d \in MainDecls(w) /\ \E s \in w["l"] : Decl(s) = d}
+SharedTypes(w) == {d \in TypeDecls(w) : d \in MainDecls(w) /\ \E s \in w["l"] : Ent(s, "l") = d}
 \* invariant: the any-location rule is the reference, whatever the load order
 AnyLocIsReference == \A ord \in LoadOrders : \A d \in TypeDecls(ws) :
                         ListedByAny(ws, d, ord) <=> d \in Expected(ws, "types")
@@ -117,6 +129,18 @@ FirstLocIsReference == \A ord \in LoadOrders : \A d \in TypeDecls(ws) :
 \* what a first-location exporter would lose, per load order (labels the cases the driver must replay)
 LostByFirstLoc(w, ord) == {d \in Expected(w, "types") : ~ListedByFirst(w, d, ord)}
 
+\* main-workspace types that share kind and name with another main-workspace type (different scopes)
+SameNamed(w) == {d \in Expected(w, "types") : \E e \in Expected(w, "types") : e # d /\ e[2] = d[2] /\ e[3] = d[3]}
+\* NOT an invariant (vacuity guard, cfg DocExport_byname must violate it): an exporter that collects the types in a
+\* map keyed by NAME loses nothing
+KeyedByNameLosesNothing ==
+   Cardinality({<<d[2], d[3]>> : d \in Expected(ws, "types")}) = Cardinality(Expected(ws, "types"))
+\* the expected entries of the types list as <<kind, name>>, one per entity (so a name may occur twice)
+\* (built element by element: Canon enumerates n^n functions, too many for eight entities)
+RECURSIVE SeqOfSet(_)
+SeqOfSet(S) == IF S = {} THEN <<>> ELSE LET x == CHOOSE y \in S : TRUE IN <<x>> \o SeqOfSet(S \ {x})
+TypeEntries(w) == LET es == SeqOfSet(Expected(w, "types")) IN [i \in DOMAIN es |-> <<es[i][2], es[i][3]>>]
+
 \* ---- case emission (TwoRuns = FALSE) ----------------------------------------------------------------
 AsSeq(S) == Canon(S)
 SplitClass(w) == Cardinality({f \in MainFiles : "CF" \in w[f]}) >= 2
@@ -124,7 +148,8 @@ MultiFileGlobals(w) == {n \in {"GlobA", "GlobT", "LibGlob"} :
                           Cardinality({f \in MainFiles : \E s \in w[f] : Decl(s)[1] = "globals" /\ Decl(s)[3] = n}) >= 2}
 Emit == TwoRuns \/ PrintT(<<"CASE", ToJson([
            ws |-> [f \in {"a", "b", "c", "l"} |-> AsSeq(ws[f])],
-           types |-> AsSeq({<<d[2], d[3]>> : d \in Expected(ws, "types")}),
+           types |-> TypeEntries(ws),
+           samenamed |-> AsSeq({<<d[2], d[3]>> : d \in SameNamed(ws)}),
            globals |-> AsSeq({d[3] : d \in Expected(ws, "globals")}),
            modules |-> AsSeq({d[3] : d \in Expected(ws, "modules")}),
            libonly |-> AsSeq({d[3] : d \in LibOnlyDecls(ws)}),
